@@ -5,7 +5,6 @@ package predict
 // Only compiled with the build tag "verif": access for the verification
 // harness, no behaviour of its own.
 
-func VerifPaeth(a, b, c byte) byte { return paethPredictor(a, b, c) }
 
 func VerifParams(colors, bpc, columns, predictor int) (bitsPerPixel, bitsPerRow, bytesPerRow, bytesPerPixel int, err error) {
 	p := &Params{Colors: colors, BitsPerComponent: bpc, Columns: columns, Predictor: predictor}
